@@ -638,13 +638,11 @@ class SmtDagPrinter(DagWalker):
         self.write("))) ")
         return sym
 
-    @write_annotations_dag
     def walk_str_length(self, formula, args, **kwargs):
-        return "(str.len %s)" % args[0]
+        return self.walk_nary(formula, args, "str.len")
 
-    @write_annotations_dag
     def walk_str_charat(self,formula, args,**kwargs):
-        return "( str.at %s %s )" % (args[0], args[1])
+        return self.walk_nary(formula, args, "str.at")
 
     @write_annotations_dag
     def walk_str_concat(self, formula, args, **kwargs):
@@ -657,37 +655,29 @@ class SmtDagPrinter(DagWalker):
         self.write("))) ")
         return sym
 
-    @write_annotations_dag
     def walk_str_contains(self,formula, args, **kwargs):
-        return "( str.contains %s %s)" % (args[0], args[1])
+        return self.walk_nary(formula, args, "str.contains")
 
-    @write_annotations_dag
     def walk_str_indexof(self,formula, args, **kwargs):
-        return "( str.indexof %s %s %s )" % (args[0], args[1], args[2])
+        return self.walk_nary(formula, args, "str.indexof")
 
-    @write_annotations_dag
     def walk_str_replace(self,formula, args, **kwargs):
-        return "( str.replace %s %s %s )" % (args[0], args[1], args[2])
+        return self.walk_nary(formula, args, "str.replace")
 
-    @write_annotations_dag
     def walk_str_substr(self,formula, args,**kwargs):
-        return "( str.substr %s %s %s)" % (args[0], args[1], args[2])
+        return self.walk_nary(formula, args, "str.substr")
 
-    @write_annotations_dag
     def walk_str_prefixof(self,formula, args,**kwargs):
-        return "( str.prefixof %s %s )" % (args[0], args[1])
+        return self.walk_nary(formula, args, "str.prefixof")
 
-    @write_annotations_dag
     def walk_str_suffixof(self,formula, args, **kwargs):
-        return "( str.suffixof %s %s )" % (args[0], args[1])
+        return self.walk_nary(formula, args, "str.suffixof")
 
-    @write_annotations_dag
     def walk_str_to_int(self,formula, args, **kwargs):
-        return "( str.to_int %s )" % args[0]
+        return self.walk_nary(formula, args, "str.to_int")
 
-    @write_annotations_dag
     def walk_int_to_str(self,formula, args, **kwargs):
-        return "( str.from_int %s )" % args[0]
+        return self.walk_nary(formula, args, "str.from_int")
 
     @write_annotations_dag
     def walk_array_value(self, formula, args, **kwargs):
